@@ -969,7 +969,7 @@ def run(ctx):
     from ..formula import imported
 
     ctx._own_rules = set(ctx.rule_min)
-    info = {}
+    info = C10._Info()
     for r in (C10.rule_X1, C10.rule_X2, C10.rule_X3, C10.rule_X4, C10.rule_X5):
         imported(ctx, r, info)
     # the cluster table the commands read from the trace is the one the run stored, under the key and on the chain
